@@ -208,6 +208,19 @@ Theorem C02_sigmoid_fortran_elementwise : forall (E : Qc -> Qc) xs, sigmoid_fort
 Proof. exact sigmoid_fortran_elementwise. Qed.
 Print Assumptions C02_sigmoid_fortran_elementwise.
 
+(* ------------------------------------------------------------------------------------------------ (vi) named constants *)
+(* `pi` denotes the same float64 on every backend.  Full statement (false while fixed_fortran_pi = false: D1xx-fortran-pi): *)
+Definition C02_pi_full_statement : Prop := forall b, backend_pi b = pi_f64.
+
+Theorem C02_pi_partial : forall b, fortran_pi_free b true = true -> backend_pi b = pi_f64.
+Proof. exact backend_pi_partial. Qed.
+Print Assumptions C02_pi_partial.
+
+(* before fix_D1xx_fortran_pi the Fortran module constant is float32(pi) = 13176795/4194304 *)
+Theorem C02_pi_fortran_refuted_before_fix : fixed_fortran_pi = false -> backend_pi BFortran <> pi_f64.
+Proof. exact backend_pi_fortran_before_fix. Qed.
+Print Assumptions C02_pi_fortran_refuted_before_fix.
+
 (* ------------------------------------------------------------------------------------------------ non-vacuity *)
 (* a grid with uneven spacing, a query inside, outside and on a grid point: all three helpers give 5/2, 1, 7, 3;
    a time-free 2x2 linear system satisfies the guard and all four backends give the same three Heun rows *)
